@@ -135,15 +135,20 @@ PROPS = {
     ),
     "C02": dict(
         handlers=["C02K"],
-        suites=[("e2e_c02", 150, 4000)],
-        decided_by_proof="query time-range tests (record filter = inclusive membership, block filter = range intersection, pruning sound) on kernels regenerated from the source",
-        partial="typed comparison, wildcard/term matching and boolean structure: end-to-end differential against the Lean specification (SigModel/Spec/Logs.lean); Go regexp engine and SPL parser are glue",
+        suites=[("e2e_c02", 150, 4000), ("cmpk", 24000, 240000)],
+        decided_by_proof="query time-range tests (record filter = inclusive membership, block filter = range intersection, pruning sound) on kernels regenerated from the source. Typed comparison kernel (Model/Cmp.lean mirrors filterOpOnDataType / fopOnNumber / compareNumberDte / enclosureFromJsonNumber / checkRangeIndexHelper / the where-stage comparison; suite cmpk): for EVERY stored value of the writer's kinds (int64, uint64, float64, string, bool, back-fill), every operator, every number text and every float64 rounding function with RndOk, the search-clause comparison of the record bytes with the literal enclosure equals the comparison BY VALUE under the decidable guard CmpGuard (implCmp_eq_spec_partial); the full statement is refuted by six counterexample theorems, one per excluded class (1e-4 AlmostEquals tolerance on = / !=; integer record beyond 2^53 vs float-typed literal; float record vs integer literal beyond 2^53; uint64 record vs negative literal; int64 record vs literal >= 2^63; numeric strings), each replayed on the real code (corpus/cmpk.ops); integer record exactly representable in float64 vs ANY float-typed literal under < <= > >= is by value (int_vs_decimal_order_by_value: the case repaired by ec0bd3f); the block range-index check with the float fallback never skips a range holding a satisfying value under rangeGuard (range_check_sound_partial, on the regenerated does*PassRangeFilter kernels; two counterexample theorems beyond 2^53); search clause and where stage agree on numeric fields under CmpGuard and whereGuard (search_where_agree_partial; counterexample theorems for where x=0 on non-integral floats, the tolerance, integers beyond 2^53); = / != on strings is (ASCII case-folded) byte equality (string_eq_ne)",
+        partial="wildcard/term matching, regular-expression literals, the boolean structure (AND/OR/NOT, sparse fields) and whole queries: end-to-end differential against the Lean specification (SigModel/Spec/Logs.lean); Go regexp engine and SPL parser are glue. Kernel slice: non-finite float64 (NaN/Inf cannot be ingested from JSON) and the narrow numeric record kinds (int8..uint32, emitted by no writer) are tied by correspondence only; multi-value range entries are covered by the theorem through `contains`, the writer's folding of values into a range (updateRangeIndex) is exercised for one-value ranges only",
+        trusted_base=["float64 rounding is a parameter `rnd` of the comparison model; theorems assume RndOk rnd (rnd 0 = 0, 0 < rnd 0.0001, rnd idempotent, rnd fixes binary64 values) and carry exactness of rnd on each converted integer in the guards; the Oracle instantiates rnd with a Lean round-to-nearest-even (roundF64) that the correspondence run validates against strconv.ParseFloat / float64(int) / float64 subtraction on every sampled line (op `lit` compares the bit patterns)",
+                      "the three strconv parsers applied to a literal's text (ParseUint, ParseInt, ParseFloat) are summarised by the structure NumText (which of them succeed, exact decimal value); the Oracle computes it from the text for the grammar [+-]digits[.digits][e[+-]digits]; hex floats, inf/nan and underscores are outside"],
+        assumptions=["int64(f)/uint64(f) of a FLOAT literal outside the target range are implementation-defined in Go; no comparison reads these two fields of a float-typed literal (model and theorems do not depend on them)"],
     ),
     "C03": dict(
         suites=[("e2e_c03", 150, 4000), ("bloom", 4000, 60000)],
         handlers=["C03B"],
-        decided_by_proof="range micro-index skip rule is sound for all six operators (signed, unsigned, float) on kernels regenerated from the source; counterexample theorem for != with records lacking the column",
-        partial="bloom keys, dictionary search, PQS, sort index, agile tree, rollups, parallelism: metamorphic end-to-end differential only",
+        decided_by_proof="range micro-index skip rule is sound for all six operators (signed, unsigned, float) on kernels regenerated from the source; counterexample theorem for != with records lacking the column. Bloom skip rule (model tied to addToBlockBloomBothCases[WithBuf] / writeToBloom / writeDeBloom, ProcessSingleFilter, GetAllBlockBloomKeysToSearch, doCmiChecks, DoCMICheckForUnrotated, IsSubWordPresent, ApplySearchToMatchFilterRawCsg, fopOnString by suite bloom): for every stored value, every bloom-like filter holding the added keys and every column set, a block with a record satisfying an And/Or match filter of single-token words, a one-token or whole-value phrase, or a string equality is kept, case-sensitive and case-insensitive, on rotated and open segments; counterexample theorems for a multi-token phrase strictly inside a longer value, for the empty phrase after a trailing space, for negated free text on open segments, for a case-insensitive needle that is not lower-cased. Dictionary search path: for every dictionary block and predicate the dictionary path selects exactly the records the per-record path selects (match filters with at least one word; counterexample theorem without words)",
+        partial="the three bloom counterexample classes are genuine defects (known findings, replayed end to end); MATCH_DICT_ARRAY filters, regular-expression / wildcard record matching, the in-place key insertion used for array-dict columns (modelled and tied, lower-cased full value lost: theorem, not replayed), bool columns (the dictionary bloom holds the byte 0/1, the probe asks for the text true/false; boolean search clauses answer nothing with or without the micro-index), the column-name bloom, PQS, sort index, agile tree, rollups, parallelism: metamorphic end-to-end differential only",
+        trusted_base=["suite bloom observes the keys handed to the filter by membership tests against a large real bloom filter (2^20 bits, 16 hashes, at most a few dozen keys) over every substring of the value and of its lower-cased copy; strings.ToLower of the query text (Unicode) travels on the op line as the SPL grammar passes it (value, original value); strings.TrimSpace is modelled for valid UTF-8"],
+        assumptions=["case-insensitive soundness is stated for needles without ASCII upper-case bytes: every front-end lower-cases the text of a case-insensitive search (spl.peg CaseInsensitiveString)"],
     ),
     "C04": dict(
         suites=[("e2e_c04", 150, 4000), ("stats", 4000, 60000)],
@@ -162,11 +167,11 @@ PROPS = {
         assumptions=["segment requests are ordered by sort.Slice in initializeQSRs; the model uses a stable sort, which coincides with sort.Slice below 13 elements (generators stay below); the order among requests with equal keys affects batch boundaries only, not the theorems"],
     ),
     "C13": dict(
-        suites=[("tenant", 4000, 60000)],
+        suites=[("tenant", 4000, 60000), ("tenant_e2e", 30, 400)],
         trusted_base=["Go regexp (RE2) is modelled for a fragment (literals, ., * + ? with lazy marker and the nested-repetition error, |, groups, ^ $ as begin/end of text, character classes, backslash + non-alphanumeric) that contains everything the quoted source of a wildcard element can hold; names and expressions are restricted to the alphabet letters, digits and - _ . * + ? ( ) [ ] | ^ $ \\ { } , : space (other characters: both sides answer out-of-fragment, the generator stays inside)",
                       "overlay hooks VerifResetTables (pkg/virtualtable), VerifResetUnrotated/VerifAddUnrotated (pkg/segment/writer) only reset / fill package state between cases; the harness creates the per-org alias directories that the open-source code never creates"],
-        decided_by_proof="index-expression expansion for every table/alias state, organisation and expression: a returned name is a table or alias target of the requesting organisation or text of the expression (verbatim element / documented fallback, characterised exactly), and is named by the expression under glob semantics (* = any string, every other character literal; key lemma: the code's quoted, unanchored regexp test compiles for every element and equals the glob match); rotated and unrotated segment selection admits a segment iff table in names and org = requesting org and time overlap; DeleteVirtualTable removes exactly (org, index) from the table list and leaves other organisations' expansions unchanged; metadata.DeleteVirtualTable removes exactly the segments of (org, index) from the rotated-segment view (same-named indexes of other organisations and prefix-related names untouched). Both former defects are kept as ...Old definitions with counterexample theorems",
-        partial="end-to-end create/ingest/alias/delete/query sequences over several organisations (records carrying org/index markers through ingest, flush, rotation and all query forms), stream-id keying of open segment stores (CreateStreamId), DeleteSegmentsForIndex / DeleteVirtualTableSegStore (segmeta file, segment directories — by reading they are keyed by the index NAME only, not replayed here), the stale in-memory table map after DeleteVirtualTable (a re-created index is not written to the table file until the next refresh), column listing and metrics queries, the FilteroutUnauthorizedIndexes hook: NOT covered by this slice",
+        decided_by_proof="index-expression expansion for every table/alias state, organisation and expression: a returned name is a table or alias target of the requesting organisation or text of the expression (verbatim element / documented fallback, characterised exactly), and is named by the expression under glob semantics (* = any string, every other character literal; key lemma: the code's quoted, unanchored regexp test compiles for every element and equals the glob match); rotated and unrotated segment selection admits a segment iff table in names and org = requesting org and time overlap; DeleteVirtualTable removes exactly (org, index) from the table list and leaves other organisations' expansions unchanged; metadata.DeleteVirtualTable removes exactly the segments of (org, index) from the rotated-segment view (same-named indexes of other organisations and prefix-related names untouched). Both former defects are kept as ...Old definitions with counterexample theorems; the coded stream-id format <shard>-<org>-<hash(index)> parses uniquely for every hash function (ids equal only if shard, org and hash of the index agree; pre-image injective in (org, index)); record-level composition: a record visible to a search was ingested by the requesting organisation into an index the expansion returned",
+        partial="end-to-end isolation is CORRESPONDENCE only (suite tenant_e2e: bulk ingest for 2-4 organisations into the in-process engine, rotation, search * per (org, index expression), record markers compared with the model's prediction; no aliases, no deletes, no aggregations/column listing/metrics there); xxhash itself is a parameter (collision-freeness is assumed, not proved); DeleteSegmentsForIndex / DeleteVirtualTableSegStore (segmeta file, segment directories — by reading they are keyed by the index NAME only, not replayed here), the stale in-memory table map after DeleteVirtualTable (a re-created index is not written to the table file until the next refresh), column listing and metrics queries, the FilteroutUnauthorizedIndexes hook: NOT covered by this slice",
         assumptions=["table and alias names contain no newline (the table list is a line-oriented file), segment keys are unique, a deleted index has a non-empty name (deleteSegmentKeyWithLock uses the empty table name as its not-found marker)",
                      "aliases of organisations other than 0 exist only where the deployment creates aliases/<org>/ (the open-source code does not)"],
     ),
@@ -182,8 +187,10 @@ PROPS = {
             # a flush registers its block in the unrotated map before the rotation check of the same lock hold
             "C11.flush.order": ["updateUnrotatedBlockInfo", "checkAndRotateColFiles"],
             # order of the two segment-list snapshots of a query = Cfg.real.qOrder, and what each one reads
-            "C11.query.order": ["getAllUnrotatedSegments", "getAllRotatedSegmentsInQuery"],
-            "C11.aggs.order": ["getAllUnrotatedSegmentsInAggs", "getAllRotatedSegmentsInAggs"],
+            # … followed by the de-duplication of the unrotated request list against the rotated one (Cfg.real.dedupSeg = true)
+            "C11.query.order": ["getAllUnrotatedSegments", "getAllRotatedSegmentsInQuery", "removeQSRsAlsoRotated"],
+            "C11.aggs.order": ["getAllUnrotatedSegmentsInAggs", "getAllRotatedSegmentsInAggs", "removeQSRsAlsoRotated"],
+            "C11.query.dedup": ["getRotatedSegments"],
             "C11.query.unrotated.reads": ["FilterUnrotatedSegmentsInQuery"],
             "C11.query.rotated.reads": ["FilterSegmentsByTime"],
             "C11.aggs.unrotated.reads": ["FilterUnrotatedSegmentsInQuery"],
@@ -197,17 +204,18 @@ PROPS = {
             "C11.lock.AddEntry": ["Lock", "Unlock", "AppendWipToSegfile", "AppendWipToSegfile"],
             "C11.lock.FlushWipBufferToFile": ["allSegStoresLock.RLock", "Lock", "Unlock", "AppendWipToSegfile", "Unlock", "allSegStoresLock.RUnlock"],
             "C11.lock.ForceRotateSegmentsForTest": ["allSegStoresLock.Lock", "Lock", "AppendWipToSegfile", "Unlock", "allSegStoresLock.Unlock"],
-            # the read of one request (ReadOne): check, then look-up under a second lock acquisition; error path closes twice
-            "C11.read.ssr.order": ["IsSegKeyUnrotated", "ExtractUnrotatedSSRFromSearchNode", "ExtractSSRFromSearchNode"],
+            # the read of one request (ReadOne.Reader.real): check, look-up under a second lock acquisition, re-check and
+            # fall back to the rotated path; the init error path still closes the readers and the caller closes again (Close is idempotent)
+            "C11.read.ssr.order": ["IsSegKeyUnrotated", "ExtractUnrotatedSSRFromSearchNode", "IsSegKeyUnrotated", "ExtractSSRFromSearchNode"],
             "C11.read.ssr.lookup": ["RLock", "RUnlock", "IsRecentlyRotatedSegKey", "DoCMICheckForUnrotated"],
-            "C11.read.reader.order": ["IsSegKeyUnrotated", "GetBlockSearchInfoForKey", "GetSearchInfoAndSummary"],
+            "C11.read.reader.order": ["IsSegKeyUnrotated", "GetBlockSearchInfoForKey", "IsSegKeyUnrotated", "GetSearchInfoAndSummary"],
             "C11.read.reader.errclose": ["initNewMultiColumnReader", "Close"],
             "C11.read.reader.callerclose": ["InitSharedMultiColumnReaders", "Close"],
             "C11.read.stats.order": ["IsSegKeyUnrotated", "ReadSegStats", "computeSegStatsFromRawRecords", "computeSegStatsFromRawRecords"],
         },
         trusted_base=["the interleaving machines treat each protocol step as atomic: justified by the lock each step takes (facts C11.lock.*), not by the Go memory model",
                       "harness/cmd/overlaygen/c11.go inserts pause points (before the rotation steps in segstore.go, after the two unrotated-checks of the read path in segquery.go and multicolreader.go) into textual copies of the working tree's files, nothing else changed; the two query snapshots are paused through the product hook hooks.GlobalHooks.FilterQsrsHook"],
-        decided_by_proof="PROTOCOL LOGIC over all interleavings of flush / the four rotation steps in the extracted order / the two query snapshots in the extracted order / the read, for any number of streams and queries: (1) no loss — at every step a segment is in the unrotated or the rotated map with all its flushed blocks, a query started after a completed flush has the flush's segment in one of its snapshots and (the read of a request taken as one step) reads the block; a schedule losing a block exists as soon as the rotation removes before it adds or the query snapshots rotated before unrotated; at lock granularity the read of one request is REFUTED by two counterexample theorems (rotation between the unrotated-check and the look-up: segment skipped = events silently lost; one layer down: double release of the FD semaphore = process crash; both replayed on the real engine, known findings), proved under the guard 'the remove step does not fall between a check and its look-up', and proved unconditionally for a reader that checks and looks up under one lock acquisition; (2) at most once — proved for record queries (block-level de-duplication), REFUTED for count queries by a counterexample theorem (segment in both snapshots, no de-duplication by segment key; replayed on the real engine, known finding), proved under the exact guard 'the two snapshots share no segment' and under the schedule guard 'no segment in its hand-over window at the first snapshot and no rotation step before the second'; (3) at quiescence the unrotated map, the rotated map and the flush history equal those of the sequential execution of the same schedule",
+        decided_by_proof="PROTOCOL LOGIC over all interleavings of flush / the four rotation steps in the extracted order / the two query snapshots in the extracted order / the read, for any number of streams and queries: (1) no loss — at every step a segment is in the unrotated or the rotated map with all its flushed blocks, a query started after a completed flush has the flush's segment in one of its snapshots and (the read of a request taken as one step) reads the block; a schedule losing a block exists as soon as the rotation removes before it adds or the query snapshots rotated before unrotated; at lock granularity the read of one request reads the segment in every interleaving with the rotation of that segment and never skips it or crashes (re-check and fall-back to the rotated path; the two former defects — segment skipped, double release of the FD semaphore — are kept as counterexample theorems about Reader.old); (2) at most once — every finished query, record or count, reads every block at most once (request list de-duplicated by segment key; block-level de-duplication for record queries); the former defect (count doubled when a segment is in both snapshots) is kept as counterexample theorems about Cfg.realOld together with its exact guard; (3) at quiescence the unrotated map, the rotated map and the flush history equal those of the sequential execution of the same schedule",
         partial="data races in the Go memory model, deadlocks, crashes and real scheduling are NOT decided by proof; the stress worker (suite concstress: concurrent ingest + periodic flush + forced rotation + repeated match-all/count queries under GOMAXPROCS 1/4/16) and its -race build (thorough tier) are EXPLORATION only. The composition of the per-request read machine (ReadOne) with the many-request query machine is not proved (requests of one query are read in parallel); group-by queries, persistent-query (PQS) paths, sort-index sub-searches, retention/deletion of rotated segments and distributed query hooks are not modelled",
         assumptions=["one SegStore per index (one stream id per index and node)", "rotated segments are not deleted while the modelled queries run (retention is property C14)",
                      "`* | stats count` over a time range enclosing every segment takes the segment-statistics path that counts the record number captured by the snapshot (segquery.go applyAggOpOnSegments)"],
